@@ -5,6 +5,12 @@ ALL = ["C%02d" % i for i in range(1, 21)]
 
 # id -> (level text, level note, technique)
 CLAIMED = {
+ "C12": ("Extracts the decision table of core.VerifyYouVersionState by enumerating every feasible path of its SSA form (phis resolved per path) and decides on the accepting paths: (W1) each of the five upgrade fields of the new header is pinned by an equality or two-sided bound in every case (switch, failed, on-going, new, none); (W2) an approval is added only with round < NextVoteBefore; (W3) builder and verifier agree on the field set, InsertChain verifies before importing, the version in force is read protocolRoundBack rounds back. It does not decide chain-level invariants as reachability, nor builder-accepted as values.",
+         "Trusted: go/types + go/ssa; the path enumeration is exhaustive for this loop-free function (budget 20000 paths, exceeded = undecided).",
+         "exhaustive path enumeration of a loop-free verifier (decision-table extraction) + atom coverage rules"),
+ "C20": ("Decides structural necessary conditions of pool consistency on package core: (L1) a must-hold lock-set dataflow with requires-lock propagation over the package call graph shows every access to the nine guarded TxPool indexes happens under TxPool.mu and no exported method or goroutine entry needs the lock on entry; txLookup is self-locking; (L2) all.Add/priced.Put and all.Remove/priced.Removed pairing, disposal of transactions taken out of account lists; (L3) insertions dominated by validateTx==nil; (L4) the miner consumes Pending(). It does not decide the nonce-gap/affordability invariants as data.",
+         "Trusted: go/types + go/ssa; closures passed as arguments run synchronously; aliasing of distinct TxPool instances ignored (methods act on their receiver).",
+         "lock-set (must-hold) dataflow + requires-lock propagation, always-with pairing, dominance gates"),
  "C05": ("Decides structural necessary conditions of sound double-sign slashing on staking and consensus/ucon: (D1) the penalty is dominated by a comparison of two entries' block hashes; (D2) every entry's signature is verified under the key of GetByIndex(SignerIdx), the loop covers the whole list and a failed check cannot reach the penalty or the signer cache; (D3) once per validator per block, parent round only; (D4) builder and validator run processEvidences with a parent height derived from the processed header; (D5) amount = tokens x configured fraction / 100, credited to PenaltyTo, amounts taken = amounts accumulated; (D6) the signed payload identifies the vote kind (open finding F8). It does not decide the arithmetic of the proportional split.",
          "Trusted: go/types + go/ssa; BLS Verify sound; tables in ycheck/rules_c05.go. One open known finding (F8).",
          "SSA dominance gates with control-dependence slices, failure-edge reachability, provenance of penalty amount and parent height"),
